@@ -258,6 +258,33 @@ empty @is_you(int a) {
 ]
 
 
+TEMPLATES += [
+    ('preempt_with_loops', '''int x = 0;
+empty !f() { !truth_is_defeat(x == 1); }
+empty @is_you(int a, int b) {
+  try { write('t'); preempt { for (int i = 0; i < 3; i += 1) { if (i == a) { continue; } if (i == b) { break; } write(i); int[] t = [i, i]; x = t[1]; } write('p'); } x = a; !f(); write('n'); } %(kind)s { write('h'); }
+  for (int k = 0; k < 2; k += 1) { try { preempt { if (k == a) { write('c'); continue; } write('q'); } !truth_is_defeat(k == b); write('m'); } %(kind)s { write('H'); } write('.'); }
+  write('>');
+}''', [[a, b] for a in (0, 1, 2) for b in (0, 1, 3)]),
+    ('you_call_from_handler', '''int x = 0;
+empty !f(int d) { int[] pad = [d, d]; if (d > 0) { !f(d - 1); } !truth_is_defeat(x == 1); write(pad[1]); }
+int @rescue(int a) { try { x = a; !f(1); write('r'); return 1; } stop { write('R'); } return 2; }
+empty @is_you(int a, int b) {
+  int[] keep = [7, 8, 9];
+  try { x = a; !f(2); write('n'); } stop { write('h'); write(@rescue(b)); write(keep[2]); }
+  try { x = b; !f(0); write('m'); } undo { write('u'); write(@rescue(a)); }
+  write(keep[0]); write('>');
+}''', [[a, b] for a in (0, 1) for b in (0, 1)]),
+    ('spec_with_arrays', '''int g = 0; int[] G = [4, 5, 6];
+int pick(const int[] a, int i) { g += 1; write('p'); return a[i]; }
+int total(const int[] a) { int s = 0; for (int i = 0; i < a.length; i += 1) { s += a[i]; } g += 10; return s; }
+empty @is_you(int a, int b) {
+  int[] l = [a, b, 6];
+  write(pick(l, 0) ?? pick(G, 2)); write(g); write(total([a, b]) ?? total(l)); write(g); write(l[0] ?? G[a %% 3]); write(pick(G, b %% 3) ?? l[2]); write(g);
+  write((pick(l, 1) ?? G[1]) + G[0]); write(g); bool t = (l[0] > 0) ?? (pick(G, 0) > 4); write(t); write(g);
+}'''.replace('%%', '%'), [[a, b] for a in (0, 4, 6) for b in (1, 5, 6)]),
+]
+
 SCOPE_TEMPLATES = [
     ('loop_inside_try', '''int x = 0;
 empty !f() { !truth_is_defeat(x == 1); }
